@@ -55,6 +55,22 @@ func guarded(f func()) string {
 	}
 }
 
+// bounded runs f on its own goroutine under the watchdog: ok = false when it did
+// not come back (the goroutine is left behind, parked).  Every call on a real
+// structure that is not itself the subject of a generator goes through this, so
+// that a lock left taken by an earlier call ends as a recorded event or a quick
+// driver error, never as a driver that waits for ever.
+func bounded(f func()) (msg string, ok bool) {
+	done := make(chan string, 1)
+	go func() { done <- core.Guard(f) }()
+	select {
+	case msg = <-done:
+		return msg, true
+	case <-time.After(watchdog):
+		return "", false
+	}
+}
+
 func typeNames(tab *Table) []string {
 	var ns []string
 	for n := range tab.Types {
@@ -186,7 +202,15 @@ func runFootprint(c *core.Ctx, tab *Table) error {
 //	           goroutines, a.m(b) against b.m2(a), crossRounds times in lockstep
 //	           rounds (up to 4 attempts on fresh instances), for every such
 //	           method m2 from m on (event field "with")
-var wdVariants = []string{"populated", "empty", "growing", "full", "self", "cross"}
+//	zero / neg / none   5 elements, ONE call whose arguments are the unusual
+//	           values (zero: 0, "", nil interface values, empty slices; neg: -1,
+//	           "", nil slices; none: the instance's own NONE sentinel / null
+//	           value, "", nil), followed like every other state by Size() under
+//	           the watchdog: an early-return path that forgets the lock shows as
+//	           a probe that does not come back
+var wdVariants = []string{"populated", "empty", "growing", "full", "self", "cross", "zero", "neg", "none"}
+
+var specialMode = map[string]int{"zero": 1, "neg": 2, "none": 3}
 
 const crossRounds = 3000
 
@@ -306,14 +330,15 @@ func runWatchdog(c *core.Ctx, tab *Table) error {
 		ms := emitMethods(t, tn, first)
 		pm := probeMethod(ti)
 		timeouts := 0 // a type that hangs again and again has said what it has to say
+		leaks := 0    // ... and so has one whose lock stayed taken after a call with unusual arguments
 		for _, m := range ms {
 			for vi, variant := range wdVariants {
-				if vi > 0 && timeouts >= 6 {
+				if vi > 0 && (timeouts >= 6 || (specialMode[variant] > 0 && leaks >= 3)) {
 					continue
 				}
 				var obj interface{}
 				switch variant {
-				case "populated", "growing":
+				case "populated", "growing", "zero", "neg", "none":
 					if obj, err = newPopulated(tn); err != nil {
 						return err
 					}
@@ -370,7 +395,9 @@ func runWatchdog(c *core.Ctx, tab *Table) error {
 					if variant == "self" {
 						peer = obj
 					}
+					synthMode = specialMode[variant]
 					call, err := caller(obj, tn, m, k, peer)
+					synthMode = 0
 					if err != nil {
 						calls = nil
 						if vi == 0 {
@@ -394,6 +421,9 @@ func runWatchdog(c *core.Ctx, tab *Table) error {
 					}
 					ev["then"] = guarded(p)
 					ev["probe"] = pm
+					if ev["then"] == "timeout" {
+						leaks++
+					}
 				}
 				t.Emit(ev)
 				c.Count(fmt.Sprintf("wd|%s|%s|%s", tn, m, variant), true)
